@@ -213,6 +213,29 @@ fn synth_cases<W: Write>(prop: &str, opts: &Opts, out: &mut W, rng: &mut Rng) {
             emit_vp8l(out, prop, &format!("synth-long-{i}-valid"), &p);
         }
     }
+    // invalid streams whose violation hides behind a sub-image that a reader with a wrong idea of its size swallows whole
+    let mut hi = 0u64;
+    for &(w, h) in &[(16u32, 1u32), (17, 3), (33, 9), (64, 64), (100, 40), (257, 5)] {
+        for ncolors in [None, Some(2u32), Some(4), Some(16)] {
+            for t in [0u32, 1] {
+                for k in [0u32, 1, 2] {
+                    for hyp in 0..3u32 {
+                        hi += 1;
+                        if !opts.mine(hi) {
+                            continue;
+                        }
+                        if ncolors.is_none() && hyp == 0 {
+                            continue;
+                        }
+                        let mut r = rng.fork(hi ^ 0x30_0000);
+                        if let Some(p) = synth::hidden_duplicate_transform(&mut r, w, h, ncolors, t, k, hyp) {
+                            emit_vp8l(out, prop, &format!("synth-hidden-{w}x{h}-n{}-t{t}-k{k}-h{hyp}-duplicate-transform", ncolors.unwrap_or(0)), &p);
+                        }
+                    }
+                }
+            }
+        }
+    }
     // ... and valid streams with many groups of big normal prefix codes (the definitions, not pixel data, span the refills)
     let ng: u64 = if opts.tier_thorough { 300 } else { 40 };
     for i in 0..ng {
